@@ -1,10 +1,34 @@
 """Element-wise rule for map-shaped comprehensions over symbolic-length sequences (DESIGN.md 2.3 loops (ii))."""
 from __future__ import annotations
-from .values import OutOfSubset
+import ast
+import z3
+from .values import OutOfSubset, VStr, VBool
 
 
 def try_comprehension(it, n, env):
-    return None
+    """Patterns summarised without unrolling:
+         (c in <concrete str>  for c in <symbolic str>)   ->  membership of the string in the regular language chars*
+       (consumed by all(...)).  Returns None when the comprehension is not of a known shape (it is then unrolled)."""
+    if len(n.generators) != 1:
+        return None
+    g = n.generators[0]
+    if g.ifs or not isinstance(g.target, ast.Name):
+        return None
+    elt = n.elt
+    if not (isinstance(elt, ast.Compare) and len(elt.ops) == 1 and isinstance(elt.ops[0], ast.In)
+            and isinstance(elt.left, ast.Name) and elt.left.id == g.target.id):
+        return None
+    src = it.eval(g.iter, env)
+    if not (isinstance(src, VStr) and src.conc is None):
+        return None
+    chars = it.eval(elt.comparators[0], env)
+    if not (isinstance(chars, VStr) and chars.conc is not None):
+        return None
+    alts = [z3.Re(ch) for ch in sorted(set(chars.conc))]
+    lang = z3.Star(z3.Union(*alts) if len(alts) > 1 else alts[0]) if alts else z3.Re("")
+    r = VBool(z3.InRe(src.e, lang))
+    r.from_elementwise_all = True
+    return r
 
 
 def symbolic_range(it, args):
